@@ -121,7 +121,7 @@ def run(ctx):
     rng = random.Random(ctx.seed + 19)
     plans = [(1, 10, 2, True, None), (2, 8, 2, True, None)]
     if not quick:
-        plans += [(2, 14, 3, True, None), (3, 10, 3, True, 30)]
+        plans += [(2, 9, 3, True, None), (3, 8, 2, True, 20)]
     total = 0
     for (nq, nops, ngates, mid, sim) in plans:
         ops = catalogue(nq)
@@ -143,8 +143,9 @@ def run(ctx):
             key = tuple((c["op"], tuple(c["cond"])) for c in r["circ"])
             circuits.setdefault(key, {})[tuple(tuple(o) for o in r["outs"])] = float(qv(r["w"]).real)
         keys = list(circuits)
-        if quick and len(keys) > 150:
-            keys = rng.sample(keys, 150)
+        cap = 150 if quick else 700
+        if len(keys) > cap:
+            keys = rng.sample(keys, cap)
         ctx.notes.setdefault("explorations", []).append({"qubits": nq, "ops": [o["name"] + str(o.get("key", "")) + str(o["qubits"]) for o in ops], "gates": ngates,
                                                          "circuits": len(circuits), "replayed": len(keys), "mid_circuit": mid})
         for key in keys:
